@@ -6,7 +6,20 @@ cd "$(dirname "$0")"
 export CARGO_NET_OFFLINE=true
 mkdir -p build/ocaml evidence replays
 python3 tools/extract_consts.py >/dev/null 2>&1 || true
-( cd coq && coq_makefile -f _CoqProject -o Makefile >/dev/null && timeout 3000 make -k -j16 >../build/coq_build.log 2>&1 ) || { tail -50 build/coq_build.log; exit 1; }
+# Coq: only the dependency closures of the registered properties (unregistered work in progress cannot break setup)
+python3 - <<'PY' || exit 1
+import json, subprocess, sys
+sys.path.insert(0, '.')
+from tools import lib
+lib.coq_makefile()
+pids = [c['property_id'] for c in json.load(open('MANIFEST.json'))['checks']]
+targets = ' '.join('Properties/%s.vo' % p for p in pids) + ' Extract/Keep.vo'
+ok, log = lib.coq_build(targets, timeout=6000)
+open('build/coq_build.log', 'w').write(log)
+if not ok:
+    print(log[-3000:])
+sys.exit(0 if ok else 1)
+PY
 python3 - <<'PY'
 import os, sys, json
 sys.path.insert(0, '.')
